@@ -287,9 +287,7 @@ pub fn run_histories(ctx: &Ctx, acc: &mut Acc) {
     let w = world();
     let alpha = op_alphabet();
     let refs = reference(&w);
-    let ser0: Vec<String> = fresh(&w).iter().map(|r| r.sampler.to_json_string()).collect();
     let depth = ctx.tier.pick(3, 4);
-    let n = alpha.len();
     // static clauses on the reference itself
     for s in 0..2 {
         // from_rng == from_x_space_point on the converted numbers, exactly get_dimension() draws
